@@ -1,5 +1,5 @@
 """C01 - balance-sheet identity at every node (DESIGN 5/C01)."""
-from . import core_rules
+from . import backtest_rules, core_rules
 
 
 def run(chk):
@@ -16,3 +16,4 @@ def run(chk):
     core_rules.fresh_read_rules(chk, "C01")
     core_rules.update_after_liquidation(chk, "C01")
     core_rules.security_setup_rules(chk, "C01")
+    backtest_rules.run_loop(chk, "C01")
